@@ -214,3 +214,142 @@ Proof.
   split; [reflexivity |]. split; [vm_compute; repeat split; discriminate |].
   intros L H. vm_compute in H. cbn [gdeep exG]. repeat (destruct H as [<- | H]; [repeat constructor |]). destruct H.
 Qed.
+
+(** ** source tie of the float predicates the model replaces by exact integer versions
+    (gen/GeomHelpGen.v, gen/GeomHelpFloatGen.v: geomhelp.Shoelace, geomhelp.RayIntersect, snap.windingOrderIsCorrect
+    regenerated from source by translator/geomhelp.go; vocabulary Snap/GoGeomHelp.v, Snap/GoFloatOps.v)
+
+    READING: float64 is an EXACT rational; a lattice point of the model (integer ordinates o, counting 1 / D of the
+    coordinate unit; intgeom: D = 10^10) is read as o / D ([injPd D]; [injP] = D 1).  A float division by zero is an
+    explicit failure of the generated function, not Coq's x / 0 = 0: the theorems show it is never reached.  The
+    rounding of the real floating-point evaluation is NOT covered: the float envelope of DESIGN 4.2 (dyadic grids exact,
+    real grids checked by the correspondence) is unchanged.  TRUSTED: the micro-model of the go-spatial library call
+    winding.Order{}.OfPoints (sign of the cross-product sum; fewer than three points: colinear). *)
+From Coq Require Import QArith.
+From Coq Require Import Floats.SpecFloat.
+From Texel Require Import Tms.Json Snap.GoGeomHelp Snap.GoFloatOps Snap.FloatWitnesses Snap.ProofsGenGeomHelp
+  Snap.ProofsGenGeomHelpFloat.
+From Texel.Gen Require Import GeomHelpGen GeomHelpFloatGen.
+Open Scope Z_scope.
+
+(** Shoelace: never fails, and returns the model's [absArea2] (|twice the signed area|, lattice units) over 2 D^2,
+    i.e. half of it in squared coordinate units; holds for the body that multiplies raw ordinates and for the body
+    relative to the first point (repair of F23) alike: in exact arithmetic they are the same number *)
+Theorem C05_source_tie_shoelace : forall (D : positive) (r : ring),
+  exists a : Q, gen_Shoelace (map (injPd D) r) = Ok a /\ (a == absArea2 r # (2 * D * D))%Q.
+Proof. exact gen_Shoelace_spec_d. Qed.
+Print Assumptions C05_source_tie_shoelace.
+
+(** the use the callers make of it (sortPolyIdxsByOuterAreaDesc): comparing two areas *)
+Theorem C05_source_tie_shoelace_order : forall (D : positive) (r1 r2 : ring) (a1 a2 : Q),
+  gen_Shoelace (map (injPd D) r1) = Ok a1 -> gen_Shoelace (map (injPd D) r2) = Ok a2 ->
+  Qltb a1 a2 = (absArea2 r1 <? absArea2 r2) /\ Qeq_bool a1 a2 = (absArea2 r1 =? absArea2 r2).
+Proof. exact gen_Shoelace_order. Qed.
+Print Assumptions C05_source_tie_shoelace_order.
+
+(** windingOrderIsCorrect *)
+Theorem C05_source_tie_winding_order_is_correct : forall (D : positive) (r : ring) (shouldBeClockwise : bool),
+  gen_windingOrderIsCorrect (map (injPd D) r) shouldBeClockwise = Ok (windingOrderIsCorrect r shouldBeClockwise).
+Proof. exact gen_windingOrderIsCorrect_spec_d. Qed.
+Print Assumptions C05_source_tie_winding_order_is_correct.
+
+(** RayIntersect, math.Nextafter(x, +Inf) read as x + eps: for EVERY positive eps that is small enough for the input
+    ([nudge_ok], Snap/GoGeomHelp.v: only when the point is on the vertical through the left end of a non-vertical
+    segment: eps <= the width of the segment, and eps * |height of the segment| < |height of the point over that end|
+    * width) both results are the model's; in particular no division by zero is reached *)
+Theorem C05_source_tie_ray_intersect : forall (D : positive) (eps : Q) (p s e : pt),
+  (0 < eps)%Q -> nudge_ok D eps p s e ->
+  gen_RayIntersect eps (injPd D p) (injPd D s) (injPd D e) = Ok (rayIntersect p s e).
+Proof. exact gen_RayIntersect_spec_d. Qed.
+Print Assumptions C05_source_tie_ray_intersect.
+
+(** a point that is not on the vertical through an end of the segment is not nudged: any eps *)
+Theorem C05_source_tie_ray_intersect_not_nudged : forall (D : positive) (eps : Q) (p s e : pt),
+  (0 < eps)%Q -> fst p <> fst s -> fst p <> fst e ->
+  gen_RayIntersect eps (injPd D p) (injPd D s) (injPd D e) = Ok (rayIntersect p s e).
+Proof. exact gen_RayIntersect_not_nudged. Qed.
+Print Assumptions C05_source_tie_ray_intersect_not_nudged.
+
+(** when is a nudge small enough: on a lattice whose points differ by multiples of m (the pixel centres of one
+    level, m = the pixel size in lattice units) it is enough that eps <= m / D and eps * |ey - sy| / D < (m / D)^2 *)
+Theorem C05_ray_intersect_nudge_ok_lattice : forall (D : positive) (m : Z) (eps : Q) (p s e : pt),
+  0 < m -> (m | snd p - snd s) -> (m | snd p - snd e) -> (m | fst e - fst s) ->
+  (eps <= m # D)%Q -> (eps * (Z.abs (snd e - snd s) # D) < (m * m) # (D * D))%Q ->
+  nudge_ok D eps p s e.
+Proof. exact nudge_ok_lattice. Qed.
+Print Assumptions C05_ray_intersect_nudge_ok_lattice.
+
+(** integer ordinates (D = 1, m = 1): any nudge below the lattice spacing whose product with the height of the segment
+    is below 1 *)
+Theorem C05_source_tie_ray_intersect_unit_lattice : forall (eps : Q) (p s e : pt),
+  (0 < eps)%Q -> (eps < 1)%Q -> (eps * inject_Z (Z.abs (snd e - snd s)) < 1)%Q ->
+  gen_RayIntersect eps (injP p) (injP s) (injP e) = Ok (rayIntersect p s e).
+Proof. exact gen_RayIntersect_spec. Qed.
+Print Assumptions C05_source_tie_ray_intersect_unit_lattice.
+
+(** "for every eps with 0 < eps < 1" alone is FALSE: no positive nudge is small enough for all lattice segments (for
+    every eps a one unit wide segment taller than 1 / eps and the point one unit below its upper end).  The model's
+    shift is infinitesimal; the code's is one unit in the last place of pt[0] - see [C05_ray_intersect_nudge_witness] *)
+Theorem C05_ray_intersect_nudge_bound_needed : forall eps : Q, (0 < eps)%Q -> (eps < 1)%Q ->
+  exists p s e : pt, gen_RayIntersect eps (injP p) (injP s) (injP e) <> Ok (rayIntersect p s e).
+Proof. exact gen_RayIntersect_bound_needed. Qed.
+Print Assumptions C05_ray_intersect_nudge_bound_needed.
+
+(** the same regenerated statement lists over an abstract float type (gen/GeomHelpFloatGen.v): its rational instance
+    is the exact reading above; its binary64 instance (Coq.Floats.SpecFloat, executable, axiom-free) is used below and
+    in Properties/C04.v to replay float defects bit for bit *)
+Theorem C05_float_reading_rational_instance :
+  (forall (eps : Q) (pts : list qpt), genF_Shoelace (Qops eps) pts = gen_Shoelace pts) /\
+  (forall (eps : Q) (p s e : qpt), genF_RayIntersect (Qops eps) p s e = gen_RayIntersect eps p s e).
+Proof. exact (conj genF_Shoelace_Q genF_RayIntersect_Q). Qed.
+Print Assumptions C05_float_reading_rational_instance.
+
+(** a concrete input on which the REAL code leaves the model (checked on the implementation: geomhelp.RayIntersect
+    ([131072, -0.00390625], [131072, 0], [131072.00390625, -2097152]) = (false, false), snap.ringContains of the
+    triangle with the third corner [131072.00390625, 0] = inside, although the point is outside): the binary64
+    reading of the regenerated code gives that answer, the exact reading with eps = one unit in the last place
+    (2^-35) gives it too, the model says (true, false), and [nudge_ok] fails; an eighth of the height and all agree *)
+Example C05_ray_intersect_nudge_witness :
+  genF_RayIntersect B64ops nudge_pt nudge_start nudge_end = Ok (false, false) /\
+  rayIntersect nudge_pt_Z nudge_start_Z nudge_end_Z = (true, false) /\
+  genF_RayIntersect B64ops nudge_pt nudge_start nudge_end_ok = Ok (true, false) /\
+  rayIntersect nudge_pt_Z nudge_start_Z nudge_end_ok_Z = (true, false).
+Proof. exact nudge_witness_b64. Qed.
+
+Example C05_ray_intersect_nudge_witness_exact :
+  gen_RayIntersect nudge_ulp (injPd nudge_D nudge_pt_Z) (injPd nudge_D nudge_start_Z) (injPd nudge_D nudge_end_Z)
+    = Ok (false, false) /\
+  gen_RayIntersect nudge_ulp (injPd nudge_D nudge_pt_Z) (injPd nudge_D nudge_start_Z) (injPd nudge_D nudge_end_ok_Z)
+    = Ok (true, false) /\
+  nudge_ok nudge_D nudge_ulp nudge_pt_Z nudge_start_Z nudge_end_ok_Z /\
+  ~ nudge_ok nudge_D nudge_ulp nudge_pt_Z nudge_start_Z nudge_end_Z.
+Proof.
+  exact (conj (proj1 nudge_witness_exact) (conj (proj2 nudge_witness_exact) (conj nudge_witness_ok nudge_witness_not_ok))).
+Qed.
+
+(** the hypotheses are satisfiable by a non-trivial state: the lattice of intgeom (D = 10^10), the pixel centres of
+    NetherlandsRDNewQuad at its deepest level (pixel 0.00328125 m = 32812500 units), a nudge of 2.9104e-11 (one unit
+    in the last place of an x near 155000), a segment one pixel wide and 300 km tall, the point one pixel below its
+    upper end: the nudge is small enough and the regenerated code returns the model's answer (370 km is the limit) *)
+Example C05_ray_intersect_nudged_example :
+  let D := 10000000000%positive in let m := 32812500 in let eps := (29104 # 1000000000000000)%Q in
+  let p := (0, - m) in let s := (0, 0) in let e := (m, - (91428571 * m)) in
+  nudge_ok D eps p s e /\ gen_RayIntersect eps (injPd D p) (injPd D s) (injPd D e) = Ok (rayIntersect p s e) /\
+  rayIntersect p s e = (true, false).
+Proof.
+  cbv zeta.
+  assert (H : nudge_ok 10000000000 (29104 # 1000000000000000) (0, - 32812500) (0, 0) (32812500, - (91428571 * 32812500))).
+  { apply (nudge_ok_lattice _ 32812500); cbn [fst snd].
+    - reflexivity.
+    - exists (-1). reflexivity.
+    - exists 91428570. reflexivity.
+    - exists 1. reflexivity.
+    - vm_compute. discriminate.
+    - vm_compute. reflexivity. }
+  split; [exact H|]. split; [apply gen_RayIntersect_spec_d; [reflexivity | exact H] | vm_compute; reflexivity].
+Qed.
+
+Example C05_shoelace_example :
+  exists a : Q, gen_Shoelace (map injP [(0, 0); (4, 0); (4, 3)]) = Ok a /\ Qeq_bool a 6 = true /\
+                absArea2 [(0, 0); (4, 0); (4, 3)] = 12.
+Proof. eexists. split; [vm_compute; reflexivity|]. split; vm_compute; reflexivity. Qed.
